@@ -131,7 +131,10 @@ def equality_test(actual, expected, _exact_strings, _delta):
     # Float comparison
     if ((isinstance(expected, float) and isinstance(actual, (float, int))) or
             (isinstance(actual, float) and isinstance(expected, (float, int)))):
-        error = _delta
+        # Equal values are equal whatever the tolerance (two infinities differ by nan)
+        if expected == actual:
+            return True
+        error = .001 if _delta is None else _delta
         return abs(expected - actual) < error
     # Other numerics
     elif isinstance(expected, Number) and isinstance(actual, Number) and isinstance(expected, type(actual)):
